@@ -28,7 +28,7 @@ MANIFEST = {
             "default, overwrite prefers source, counts) and enumerates all 42x42 pairs of days over a 6-slot day with up to 3 blocks "
             "(thorough: 64x64 incl. a block just beyond the tolerance) x overwrite x dry-run plus a 2-interface x 2-day grid x "
             "selections; the cases are executed on real databases and compared after each of two consecutive merges (thorough: "
-            "every case; quick: every pair with <= 2 blocks per day plus a seeded sample of 700 three-block pairs and 500 grid cases).",
+            "every pair and a seeded 9000 of the 18432 grid cases; quick: every pair with <= 2 blocks per day plus a seeded sample of 700 three-block pairs and 500 grid cases).",
     "note": "Block positions are representative 5-minute-grid times (00:00 (+tolerance), tolerance+1 s, 04:00..16:00, 23:55); payloads, "
             "interface names, dates and the tolerance (150 s / 600 s) come from the seed. Cases in which the as-built completeness "
             "test (block duration inferred from the last gap) disagrees with full-day coverage carry gap_inferred_complete=true in "
@@ -142,6 +142,9 @@ def main():
                 rest = [c for c in cases if not (tag == "pairs" and all(len(d["blocks"]) <= 2 for d in c["src"] + c["steps"][0]["pre"]))]
                 rnd = random.Random(run.seed * 1000003 + len(rest))
                 cases = sorted(keep + rnd.sample(rest, min(len(rest), 700 if tag == "pairs" else 500)), key=_sig)
+            elif tag == "grid" and len(cases) > 9000:
+                # thorough: all pairs, a seeded half of the grid
+                cases = sorted(random.Random(run.seed * 7919 + 13).sample(cases, 9000), key=_sig)
             run.cov.setdefault("cases_generated", {})[tag] = generated
             fails, tot = _replay(vh, cases, run.seed, sc, tag)
             run.count(tot["merges"])
